@@ -118,6 +118,26 @@ fn check_day(ctx: &Ctx, civ: &Civil, tm: &Terms, ord: usize, routes: bool, steps
       Err(m) => ctx.violation("month_object", fmt_ymd(d), format!("panics: {}", m), rp.clone()),
     }
   }
+  // the 12 hour slots listed by the sexagenary day of a Jie day: each carries the year / month pillar of its own instant
+  // (not on the very first Jie day of the range: its late-Zi slot lies before the first term of year 1)
+  if jie_day && routes && ord > 1 && tm.g_of_inst(ord as i64 * 86400 - 3600).map(|g| g >= 25).unwrap_or(false) {
+    loc.transitions += 12;
+    let r = guard(|| mk(d).get_sixty_cycle_day().get_hours().iter().map(|h| (h.get_year().get_name(), h.get_month().get_name())).collect::<Vec<_>>());
+    match r {
+      Ok(v) => {
+        for (slot, (py, pm)) in v.iter().enumerate() {
+          let t = ord as i64 * 86400 - 3600 + slot as i64 * 7200;
+          if let Some(g2) = tm.g_of_inst(t) {
+            let (y2, k2, _) = ym_of_g(g2);
+            if y2 >= 0 && (*py != pillar_name(year_pillar(y2)) || *pm != month_pillar(y2, k2)) {
+              ctx.violation("route", format!("{} get_hours[{}]", fmt_ymd(d), slot), format!("slot {} of SixtyCycleDay::get_hours: year {} month {}; model at its instant {} {}", slot, py, pm, pillar_name(year_pillar(y2)), month_pillar(y2, k2)), rp.clone());
+            }
+          }
+        }
+      }
+      Err(m) => ctx.violation("route", format!("{} get_hours", fmt_ymd(d)), format!("panics: {}", m), rp.clone()),
+    }
+  }
   // stepping the month object by n: (year, index) moves like 12 * year + index, pillar and first day follow
   if steps && jie_day && y >= 2 && y < 9998 {
     let base = 12 * y + k as i64;
